@@ -5,6 +5,7 @@
 //!   patstat [N] [template-name-substring]      statistics
 //!   patstat --case '<PatternCase json>'        dump + run one case
 //!   SHOW=1 prints the model of the first case of every mismatch signature.
+//!   MULTI=1 uses the exploratory strategy with up to three mutated knobs per case.
 
 use proptest::strategy::{Strategy, ValueTree};
 use proptest::test_runner::{Config as PConfig, RngSeed, TestRunner};
@@ -222,7 +223,7 @@ fn main() {
             continue;
         }
         let mut runner = TestRunner::new(PConfig { rng_seed: RngSeed::Fixed(seed.wrapping_mul(1000) + t as u64), ..PConfig::default() });
-        let strat = pattern_case_for(t);
+        let strat = pattern_case_for(t, std::env::var("MULTI").is_ok());
         let (mut valid, mut fire, mut fails, mut canon, mut canon_fired) = (0usize, 0usize, 0usize, 0usize, 0usize);
         let mut invalid: BTreeMap<String, (usize, String)> = BTreeMap::new();
         let mut other_diffs: BTreeMap<String, usize> = BTreeMap::new();
